@@ -267,13 +267,40 @@ Proof.
   - intros [a [b ->]]. exists (ch_hat :: a), (b ++ [ch_dollar]). simpl. now rewrite <- !app_assoc.
 Qed.
 
+Lemma vc_table_aux_notin : forall chars n c acc, ~ In c chars -> vc_table_aux chars n c acc = acc.
+Proof.
+  induction chars as [|x r IH]; intros n c acc H; simpl; [easy|].
+  destruct (N.eqb_spec x c) as [-> |_]; [exfalso; apply H; now left|]. apply IH. intro. apply H. now right.
+Qed.
+
+Lemma valid_char_alphabet : forall c, vc_valid valid_domain_chars c = true -> pat_char c = true \/ c = ch_hat.
+Proof.
+  intros c H. destruct (in_dec N.eq_dec c valid_domain_chars) as [Hin|Hn].
+  - assert (A : forallb (fun c => pat_char c || (c =? ch_hat)) valid_domain_chars = true) by (vm_compute; reflexivity).
+    pose proof (proj1 (forallb_forall _ _) A c Hin) as A'. cbv beta in A'.
+    apply orb_true_iff in A' as [A'|A']; [now left | right; now apply N.eqb_eq].
+  - unfold vc_valid, vc_table in H. rewrite (vc_table_aux_notin _ _ _ _ Hn) in H. simpl in H.
+    apply N.eqb_eq in H. subst c. left. reflexivity.
+Qed.
+
+Lemma valid_kw_pat_ok : forall d, valid_kw valid_domain_chars d = pat_ok d.
+Proof.
+  intros d. unfold valid_kw, pat_ok. induction d as [|c d IH]; [reflexivity|]. cbn [forallb]. rewrite IH. f_equal.
+  apply bool_eq_iff. split.
+  - intro H. apply andb_true_iff in H as [H H3]. apply andb_true_iff in H as [H1 H2].
+    destruct (valid_char_alphabet c H1) as [P| ->]; [exact P|]. now rewrite N.eqb_refl in H2.
+  - intro P. rewrite (pat_char_valid c P). destruct (pat_char_not_sentinel c P) as [A B].
+    apply N.eqb_neq in A. apply N.eqb_neq in B. now rewrite A, B.
+Qed.
+
 Section MatcherCorrect.
   Variable rx_ok : str -> bool.
   Variable rx : str -> str -> bool.
   Variable ac_ok : list str -> bool.
   Variable ac : list str -> str -> bool.
-  (* the keyword automaton is taken to be an ideal substring matcher that accepts host-name patterns *)
-  Hypothesis Hac : forall pats q, ac pats q = ac_ideal pats q.
+  (* the keyword automaton is taken to be a substring matcher that never reports an empty pattern (as the
+     library does: Contains does not test the root's output flag) and accepts host-name patterns *)
+  Hypothesis Hac : forall pats q, ac pats q = ac_real pats q.
   Hypothesis Hacok : forall pats, forallb pat_ok pats = true -> ac_ok pats = true.
 
   Let chars := valid_domain_chars.
@@ -284,14 +311,18 @@ Section MatcherCorrect.
     | KSuffix => flat_map (suffix_keys chars) (ps_pats x)
     | _ => []
     end.
-  Definition kw_pats (x : pset) : list str := match ps_kind x with KKeyword => ps_pats x | _ => [] end.
+  Definition kw_pats (x : pset) : list str := match ps_kind x with KKeyword => filter (valid_kw chars) (ps_pats x) | _ => [] end.
   Definition rx_pats (x : pset) : list str := match ps_kind x with KRegex => ps_pats x | _ => [] end.
   Definition at_idx {A} (f : pset -> list A) (sets : list pset) (i : N) : list A :=
     flat_map (fun x => if ps_idx x =? i then f x else []) sets.
   Definition set_ok (x : pset) : bool :=
     match ps_kind x with KRegex => forallb rx_ok (ps_pats x) | _ => true end.
-  (* keyword patterns are host-name fragments *)
-  Definition kw_plain (sets : list pset) : bool := forallb (fun x => forallb pat_ok (kw_pats x)) sets.
+  (* no keyword pattern is the empty string *)
+  Definition kw_nonempty (sets : list pset) : bool :=
+    forallb (fun x => match ps_kind x with
+                      | KKeyword => forallb (fun p => match p with [] => false | _ => true end) (ps_pats x)
+                      | _ => true
+                      end) sets.
 
   Definition step (s : st) (x : pset) : st := add_set chars rx_ok s (ps_idx x) (ps_kind x) (ps_pats x).
 
@@ -414,53 +445,57 @@ Section MatcherCorrect.
         * apply Hl. intro Hne. destruct (Hi Hne) as [H|H]; [congruence | exact H].
   Qed.
 
-  Lemma ac_ideal_app : forall l1 l2 q, ac_ideal (l1 ++ l2) q = ac_ideal l1 q || ac_ideal l2 q.
-  Proof. intros. unfold ac_ideal. apply existsb_app. Qed.
+  Lemma ac_real_app : forall l1 l2 q, ac_real (l1 ++ l2) q = ac_real l1 q || ac_real l2 q.
+  Proof. intros. unfold ac_real. apply existsb_app. Qed.
 
-  Lemma bit_parts : forall sets raw i, name_ok raw = true -> kw_plain sets = true ->
+  Lemma bit_parts : forall sets raw i, name_ok raw = true -> kw_nonempty sets = true ->
     has_prefix (map to_suffix_trie_string (at_idx trie_keys sets i)) (query raw)
-    || ac_ideal (at_idx kw_pats sets i) (ch_hat :: normalize raw ++ [ch_dollar])
+    || ac_real (at_idx kw_pats sets i) (ch_hat :: normalize raw ++ [ch_dollar])
     || existsb (fun r => rx r (normalize raw)) (at_idx rx_pats sets i)
     = bit rx sets raw i.
   Proof.
     intros sets raw i Hn. pose proof (normalize_pat_ok raw Hn) as Hpn.
     induction sets as [|x sets IH]; intros Hk; [reflexivity|].
     simpl in Hk. apply andb_true_iff in Hk as [Hkx Hk]. specialize (IH Hk).
-    unfold at_idx in *. cbn [flat_map]. rewrite map_app, has_prefix_app, ac_ideal_app, existsb_app.
+    unfold at_idx in *. cbn [flat_map]. rewrite map_app, has_prefix_app, ac_real_app, existsb_app.
     unfold bit in *. cbn [existsb]. rewrite <- IH. clear IH.
     set (T := has_prefix (map to_suffix_trie_string (flat_map _ sets)) _).
-    set (A := ac_ideal (flat_map _ sets) _).
+    set (A := ac_real (flat_map _ sets) _).
     set (R := existsb _ (flat_map _ sets)).
     assert (E : has_prefix (map to_suffix_trie_string (if ps_idx x =? i then trie_keys x else [])) (query raw)
-                || ac_ideal (if ps_idx x =? i then kw_pats x else []) (ch_hat :: normalize raw ++ [ch_dollar])
+                || ac_real (if ps_idx x =? i then kw_pats x else []) (ch_hat :: normalize raw ++ [ch_dollar])
                 || existsb (fun r => rx r (normalize raw)) (if ps_idx x =? i then rx_pats x else [])
                 = (ps_idx x =? i) && set_matches rx x (normalize raw)).
     { destruct (ps_idx x =? i); [|reflexivity]. cbn [andb].
-      unfold set_matches, trie_keys, kw_pats, rx_pats in *. destruct (ps_kind x).
-      - rewrite has_prefix_map_flat_map. cbn [ac_ideal existsb]. rewrite !orb_false_r.
+      unfold set_matches, trie_keys, kw_pats, rx_pats in *. destruct (ps_kind x) eqn:Ek.
+      - rewrite has_prefix_map_flat_map. cbn [ac_real existsb]. rewrite !orb_false_r.
         apply existsb_ext'. intros d. exact (full_keys_correct d raw Hn).
-      - rewrite has_prefix_map_flat_map. cbn [ac_ideal existsb]. rewrite !orb_false_r.
+      - rewrite has_prefix_map_flat_map. cbn [ac_real existsb]. rewrite !orb_false_r.
         apply existsb_ext'. intros d. exact (suffix_keys_correct d raw Hn).
-      - cbn [map has_prefix existsb]. rewrite orb_false_r. cbn [orb]. unfold ac_ideal.
+      - cbn [map has_prefix existsb]. rewrite orb_false_r. cbn [orb]. unfold ac_real.
         induction (ps_pats x) as [|p ps IHp]; [reflexivity|]. simpl in Hkx. apply andb_true_iff in Hkx as [Hp Hps].
-        cbn [existsb]. rewrite IHp by exact Hps. cbn [pat_matches]. rewrite Hp, andb_true_r.
-        now rewrite contains_sentinels.
-      - cbn [map has_prefix existsb ac_ideal]. reflexivity. }
+        cbn [filter existsb]. rewrite <- (IHp Hps). clear IHp. cbn [pat_matches].
+        pose proof (valid_kw_pat_ok p) as Vp. fold chars in Vp. rewrite Vp. clear Vp. destruct (pat_ok p) eqn:P.
+        + cbn [existsb]. destruct p as [|c0 p0]; [discriminate|]. rewrite andb_true_r.
+          now rewrite (contains_sentinels (normalize raw) (c0 :: p0) Hpn P).
+        + now rewrite andb_false_r.
+      - cbn [map has_prefix existsb ac_real]. reflexivity. }
     rewrite <- E.
     destruct (has_prefix (map to_suffix_trie_string (if ps_idx x =? i then trie_keys x else [])) (query raw)),
-      (ac_ideal (if ps_idx x =? i then kw_pats x else []) (ch_hat :: normalize raw ++ [ch_dollar])),
+      (ac_real (if ps_idx x =? i then kw_pats x else []) (ch_hat :: normalize raw ++ [ch_dollar])),
       (existsb (fun r => rx r (normalize raw)) (if ps_idx x =? i then rx_pats x else [])), T, A, R; reflexivity.
   Qed.
 
-  Lemma kw_plain_at : forall sets i, kw_plain sets = true -> forallb pat_ok (at_idx kw_pats sets i) = true.
+  Lemma kw_pats_at_ok : forall sets i, forallb pat_ok (at_idx kw_pats sets i) = true.
   Proof.
-    intros sets i H. unfold kw_plain in H. rewrite forallb_forall in *. intros p Hp.
+    intros sets i. rewrite forallb_forall. intros p Hp.
     unfold at_idx in Hp. apply in_flat_map in Hp as [x [Hx Hp]]. destruct (ps_idx x =? i); [|easy].
-    specialize (H x Hx). rewrite forallb_forall in H. now apply H.
+    unfold kw_pats in Hp. destruct (ps_kind x); try easy. apply filter_In in Hp as [_ Hp].
+    now rewrite <- valid_kw_pat_ok.
   Qed.
 
   Lemma matcher_correct : forall sets names idxs,
-    kw_plain sets = true -> forallb name_ok names = true ->
+    kw_nonempty sets = true -> forallb name_ok names = true ->
     run chars rx_ok rx ac_ok ac (list str) (abs_new chars) abs_has sets names idxs
     = if sets_ok rx_ok sets then Some (map (fun raw => filter (bit rx sets raw) idxs) names) else None.
   Proof.
@@ -471,7 +506,7 @@ Section MatcherCorrect.
       unfold build. rewrite E.
       replace (forallb _ (dom s)) with true.
       2:{ symmetry. rewrite forallb_forall. intros i _. rewrite A. destruct (at_idx kw_pats sets i) eqn:Ea; [easy|].
-          apply Hacok. rewrite <- Ea. now apply kw_plain_at. }
+          apply Hacok. rewrite <- Ea. apply kw_pats_at_ok. }
       cbn [negb].
       destruct (build_tries_abs (to_trie s) (dom s)) as [ts [Hb Hl]].
       { intros i k. rewrite T. apply trie_keys_valid. }
@@ -537,16 +572,16 @@ Proof.
 Qed.
 
 Definition model_answer rx_ok rx sets names idxs :=
-  run valid_domain_chars rx_ok rx ac_ok_lib ac_ideal (list str) (abs_new valid_domain_chars) abs_has sets names idxs.
+  run valid_domain_chars rx_ok rx ac_ok_lib ac_real (list str) (abs_new valid_domain_chars) abs_has sets names idxs.
 Definition spec_answer (rx_ok : str -> bool) (rx : str -> str -> bool) (sets : list pset) (names : list str) (idxs : list N) :=
   if sets_ok rx_ok sets then Some (map (fun raw => filter (bit rx sets raw) idxs) names) else None.
 
 Lemma matcher_partial : forall rx_ok rx sets names idxs,
-  kw_plain sets = true -> forallb name_ok names = true ->
+  kw_nonempty sets = true -> forallb name_ok names = true ->
   model_answer rx_ok rx sets names idxs = spec_answer rx_ok rx sets names idxs.
 Proof.
   intros. unfold model_answer, spec_answer.
-  apply (matcher_correct rx_ok rx ac_ok_lib ac_ideal (fun _ _ => eq_refl) ac_ok_lib_plain); assumption.
+  apply (matcher_correct rx_ok rx ac_ok_lib ac_real (fun _ _ => eq_refl) ac_ok_lib_plain); assumption.
 Qed.
 
 Lemma matcher_full_refuted :
@@ -554,13 +589,13 @@ Lemma matcher_full_refuted :
     model_answer (fun _ => true) (fun _ _ => false) sets names idxs
     <> spec_answer (fun _ => true) (fun _ _ => false) sets names idxs.
 Proof.
-  exists [(0, KKeyword, [[ch_hat; 97]])], [[97; 98]], [0]. split; [reflexivity|].
+  exists [(0, KKeyword, [[]])], [[97; 98]], [0]. split; [reflexivity|].
   vm_compute. discriminate.
 Qed.
 
 Lemma sets_independent : forall rx_ok rx sets sets' raw i,
   filter (fun x => ps_idx x =? i) sets = filter (fun x => ps_idx x =? i) sets' ->
-  kw_plain sets = true -> kw_plain sets' = true -> name_ok raw = true ->
+  kw_nonempty sets = true -> kw_nonempty sets' = true -> name_ok raw = true ->
   sets_ok rx_ok sets = true -> sets_ok rx_ok sets' = true ->
   model_answer rx_ok rx sets [raw] [i] = model_answer rx_ok rx sets' [raw] [i].
 Proof.
@@ -586,7 +621,7 @@ Definition ex_names : list str :=
     [97;45;98;95;49;46;99;111;109]              (* a-b_1.com *);
     [99;111;109] ].
 Lemma matcher_nonvacuous :
-  kw_plain ex_sets = true /\ forallb name_ok ex_names = true /\
+  kw_nonempty ex_sets = true /\ forallb name_ok ex_names = true /\
   model_answer (fun _ => true) (fun _ _ => false) ex_sets ex_names [3; 32; 1023; 5]
   = Some [[3; 32; 1023]; [3; 1023]; [1023]; [3; 1023]; [3; 1023]; [3]; []].
 Proof. vm_compute. repeat split; reflexivity. Qed.
